@@ -9,7 +9,7 @@ Statically decided clauses (DESIGN §4 C17):
   5. end-of-data is sticky: failing reads/writes change nothing; adapters hold a Fuse    (R1)
   6. Reverse<B> and the provided (default) query methods are pure delegations            (R4)
 """
-from vlib import sym, dbm as dbmmod, rules
+from vlib import facts, sym, dbm as dbmmod, rules
 from vlib.facts import callee
 from vlib.report import DISCHARGED
 
@@ -533,6 +533,63 @@ def check_maybe_exhausted_sources(ctx, F):
     ctx.extra['maybe_exhausted_size_hint_overrides'] = n
 
 
+def check_true_answer_unused(ctx, F):
+    """`maybe_exhausted() == true` says nothing (it is the trait's default answer): only `false` is a promise.  A coder that
+    stops reading because the backend answered `true` treats "don't know" as "empty" and truncates its input on every backend
+    that keeps the default.  Rule, over every function of the library that both reads words and asks the question: on the
+    path where the answer is `true` a read of the backend still follows (or the function is itself an advisory query that
+    forwards the answer).  Today no library function branches on the answer at all; the rule instance count is reported."""
+    def is_q(x):
+        return isinstance(x, tuple) and x and x[0] == 'call' and str(x[1]).endswith('ReadWords::maybe_exhausted')
+    n_fn = n_br = 0
+    for b in F.bodies:
+        if b.promoted is not None or b.dk not in ('Fn', 'AssocFn') or '::tests::' in b.defpath or b.defpath.startswith('pybindings'):
+            continue
+        if not any(facts.callee_name(t) == 'maybe_exhausted' for _, t in b.calls()):
+            continue
+        ev, paths = rules.evaluate(b)
+        if not paths:
+            continue
+        reads_somewhere = any(e['kind'] == 'call' and e['name'] == 'read' and 'ReadWords' in str(e.get('callee', '')) for r in paths for e in r.events)
+        if not reads_somewhere:
+            continue
+        n_fn += 1
+        key = 'R6/true-answer-unused/' + b.defpath
+        role = 'a `true` answer of maybe_exhausted() does not stop the reading'
+        bad = None
+        seen = False
+        for r in paths:
+            for i, e in enumerate(r.events):
+                if e['kind'] != 'branch' or not sym.contains(e['term'], is_q):
+                    continue
+                seen = True
+                # outcome `true` of the query: the branch term is the call itself (or its negation)
+                t, v = e['term'], bool(e['value'])
+                while isinstance(t, tuple) and t and t[0] == 'not':
+                    t, v = t[1], not v
+                if not is_q(t):
+                    bad = bad or ('unknown', 'the answer is combined into a condition the rule cannot read')
+                    continue
+                if not v:
+                    continue
+                later_read = any(x['kind'] == 'call' and x['name'] == 'read' and 'ReadWords' in str(x.get('callee', '')) for x in r.events[i + 1:])
+                if not later_read and r.end in ('return', 'backedge'):
+                    if r.end == 'return':
+                        bad = ('bad', 'when the backend answers `true` (the default of every backend that does not override the query) the function returns without a further read, while it goes on reading on `false`')
+        if not seen:
+            continue
+        n_br += 1
+        ctx.touch(b)
+        if bad and bad[0] == 'bad':
+            ctx.bad('R6', role, b.defpath, bad[1] + ': input is truncated on backends with the default answer', key=key, loc=rules.loc(b))
+        elif bad:
+            ctx.unresolved('R6', role, b.defpath, bad[1], key=key)
+        else:
+            ctx.ok('R6', role, b.defpath, 'every `true` outcome is followed by a read', key=key)
+    ctx.extra['functions_reading_and_asking_maybe_exhausted'] = n_fn
+    ctx.extra['of_which_branch_on_the_answer'] = n_br
+
+
 def check_positional_ctors(ctx, F):
     """Constructors that take a position accept exactly what seek accepts (p <= len): a position pos() can report and
     seek() can restore must also be usable to re-open the buffer."""
@@ -748,6 +805,7 @@ def run(ctx):
         check_seek(ctx, F)
         check_positional_ctors(ctx, F)
         check_maybe_exhausted_sources(ctx, F)
+        check_true_answer_unused(ctx, F)
         check_into_reversed(ctx, F)
         check_sticky_and_delegation(ctx, F)
     ctx.assume('SafeBuf contract: as_ref()/as_mut() of a SafeBuf never shrink (unsafe trait, implementors are std types only; checked under C20)')
